@@ -181,7 +181,18 @@ def main(argv: List[str]) -> int:
     skipped: Dict[str, int] = {}
     viol_by_key: Dict[str, List[Dict[str, Any]]] = {}
     harness_notes: List[str] = []
+    extra_samples: List[Any] = []
+    stats: Dict[str, List[float]] = {}
     for r in results:
+        for smp in r.get("samples", []):
+            if len(extra_samples) < 4:
+                extra_samples.append(smp)
+        for k, (lo, hi, n) in r.get("stats", {}).items():
+            cur = stats.get(k)
+            if cur is None:
+                stats[k] = [lo, hi, n]
+            else:
+                cur[0], cur[1], cur[2] = min(cur[0], lo), max(cur[1], hi), cur[2] + n
         for k, v in r["mon"].items():
             counters[k] = counters.get(k, 0) + v
         sigs.update(r["sigs"])
@@ -252,7 +263,8 @@ def main(argv: List[str]) -> int:
             "evaluations": int(n_eval),
             "distinct_nontrivial": len(sigs),
             "rule": getattr(mod, "RULE", ""),
-            "samples": _samples(mod, cases, results),
+            "samples": _samples(mod, cases, results) + extra_samples,
+            "observed_extremes": {k: {"min": v[0], "max": v[1], "n": int(v[2])} for k, v in sorted(stats.items())},
             "exhaustive": bool(getattr(mod, "EXHAUSTIVE", {}).get(args.tier, False)),
             "exhaustive_subspace": getattr(mod, "EXHAUSTIVE_NOTE", {}).get(args.tier, ""),
             "cases": len(cases),
@@ -281,6 +293,8 @@ def main(argv: List[str]) -> int:
     print(f"[{pid}] monitors: {mon_txt}")
     if reach_summary:
         print(f"[{pid}] reach: " + "; ".join(f"{k} {v}" for k, v in sorted(reach_summary.items())))
+    if stats:
+        print(f"[{pid}] observed extremes: " + "; ".join(f"{k} [{v[0]:.4g}, {v[1]:.4g}] n={int(v[2])}" for k, v in sorted(stats.items())))
     if skipped:
         print(f"[{pid}] skipped (not judged): {skipped}")
     for ln in lines:
